@@ -115,8 +115,8 @@ CHECKS["C08"] = {
 CHECKS["C09"] = {
     "families": ["fl", "bz", "life", "xo", "xk"],
     "trusted_base": [FLSPEC, BZSPEC, "error-site facts are regenerated from /repo by the go/ast extractor and pinned by theorem (Compress.Facts.Sites)"],
-    "assumptions": ["I/O errors passed through verbatim: sweep with failing sources (families bio, life), no theorem", "Brotli truncation: sweep only"],
-    "level_text": "partial: C09_error_sites_classified (every error site of /repo on a decoding path raises Corrupted/Deprecated or is a listed exception - regenerated on every run), C09_deflate_cut_is_ueof and C09_bzip2_cut_is_ueof (a valid stream cut at any byte: exactly unexpected EOF / never corrupt, on the specifications), C09_flate_classes (flate.Reader model ends with the class matching the specification), C09_xflate_sticky / C09_xflate_close / C09_xflate_seek_keeps / C09_flate_sticky (latched error: no data, same error, Close reports it). Sticky + Close for bzip2/brotli/meta Readers and verbatim I/O errors: sweep.",
+    "assumptions": ["I/O errors passed through verbatim: sweep with failing sources (families bio, life), no theorem"],
+    "level_text": "partial: C09_error_sites_classified (every error site of /repo on a decoding path raises Corrupted/Deprecated or is a listed exception - regenerated on every run), C09_deflate_cut_is_ueof, C09_bzip2_cut_is_ueof and C09_brotli_cut_is_ueof (a valid stream cut at any byte: exactly unexpected EOF / never corrupt, on the three format specifications), C09_flate_classes (flate.Reader model ends with the class matching the specification), C09_xflate_sticky / C09_xflate_close / C09_xflate_seek_keeps / C09_flate_sticky (latched error: no data, same error, Close reports it). Sticky + Close for bzip2/brotli/meta Readers and verbatim I/O errors: sweep (call sequences, truncation at every byte through 11 source kinds, injected source errors at every position incl. a source that fails instead of reporting io.EOF, xflate streams with a damaged chunk).",
     "level_note": "Trusted: Lean kernel; extractor (go/ast) for the facts; sweep = sampling.",
     "explanation": "regenerated error-site facts + cut theorems + sticky lemmas + fault sweep",
 }
@@ -124,7 +124,7 @@ CHECKS["C10"] = {
     "families": ["bio", "fl", "brd", "bz"],
     "trusted_base": ["bit reader model (both source modes, adversarial Buffered()) tied to /repo by scripted correspondence (family bio)"],
     "assumptions": ["Buffered() answers are stable between Peek/Discard/Read (a source that shrinks them is outside the BufferedReader contract)"],
-    "level_text": "partial: C10_flate_read_sizes (any two Read schedules, zeros included: same bytes, same final error), C10_source_shape (ReadByte-only vs Peek/Discard with any Buffered() adversary: same fields = the plain bit list), C10_bzip2_read_sizes (resumable RLE1 for every schedule), C10_xflate_any_fragmentation (C07 for every inflater behaviour). Whole-reader independence for bzip2 and brotli: sweep over 9 source kinds and Read-size schedules.",
+    "level_text": "partial: C10_flate_read_sizes (any two Read schedules, zeros included: same bytes, same final error), C10_source_shape (ReadByte-only vs Peek/Discard with any Buffered() adversary: same fields = the plain bit list), C10_bzip2_read_sizes (resumable RLE1 for every schedule), C10_xflate_any_fragmentation (C07 for every inflater behaviour). Whole-reader independence for bzip2, brotli, flate and meta: sweep over 11 source kinds (with and without bytes after the stream) and Read-size schedules with zero-length buffers.",
     "level_note": "Trusted: Lean kernel; correspondence of the bit reader scripts; sweep = sampling.",
     "explanation": "schedule-independence theorems + source-shape sweep",
 }
@@ -172,7 +172,7 @@ CHECKS["C19"] = {
     "families": ["cc"],
     "trusted_base": ["global-variable facts regenerated from /repo (go/ast): written only in init functions; addresses taken only at read-only table uses", "Go race detector (binary built with -race) for what a sequential model cannot exhibit"],
     "assumptions": ["a method touches only its receiver's state and reads package state: follows from the regenerated facts for direct assignments; aliasing through pointers handed out by the instances themselves is covered by the race-detector sweep only"],
-    "level_text": "partial: interleaving_is_solo / others_irrelevant (for steps that read a shared environment and read/write only their own instance, every interleaving gives each instance exactly the results and final state of running alone - any number of instances, any schedule), C19_no_shared_write (the premise, regenerated from /repo on every run). Absence of unsynchronised access in the real code: 16-32 goroutines x independent instances of all Reader/Writer types under the race detector, results compared with solo runs.",
+    "level_text": "partial: interleaving_is_solo / others_irrelevant (for steps that read a shared environment and read/write only their own instance, every interleaving gives each instance exactly the results and final state of running alone - any number of instances, any schedule), C19_no_shared_write (the premise, regenerated from /repo on every run) together with Facts.address_taken_expected (every place where a package-level variable has its address taken, is sliced, is the receiver of a method call or is used as a bare value is pinned: a new shared table, pool or scratch buffer changes the list). Absence of unsynchronised access in the real code: 16-32 goroutines x independent instances of all Reader/Writer types under the race detector, results compared with solo runs.",
     "level_note": "Trusted: Lean kernel; extractor; race detector = sampling of schedules.",
     "explanation": "frame theorem + regenerated no-shared-write facts + race-detector sweep",
 }
